@@ -1,0 +1,9 @@
+//go:build !verif
+// +build !verif
+
+package raft
+
+import "github.com/coreos/etcd/raft/raftpb"
+
+func verifOnApply(g *RaftGroup, entry raftpb.Entry)             {}
+func verifOnSnapshotApplied(g *RaftGroup, snap raftpb.Snapshot) {}
